@@ -2,6 +2,7 @@ import AwsVerif.Model.ArrayList
 import AwsVerif.Model.LinkedList
 import AwsVerif.Proofs.C09.ALRun
 import AwsVerif.Proofs.C09.LLObs
+import AwsVerif.Proofs.C09.GenBridge
 /-!
 C09 — array list and intrusive linked list keep exact sequence contents.
 
@@ -16,7 +17,7 @@ buffers of `item_size` bytes, `swap` indices below `length`, `copy`/`swap_conten
 item-size rules) — the harness and driver print `skip` exactly when they fail.
 -/
 namespace AwsVerif.Props.C09
-open AwsVerif.ArrayList AwsVerif.Proofs.C09
+open AwsVerif AwsVerif.ArrayList AwsVerif.Proofs.C09
 
 /-- **c09_al_refines_seq.**  For every operation sequence over `push_back, push_front, pop_back,
 pop_front, pop_front_n, set_at, erase, swap, clear, shrink_to_fit, ensure_capacity, sort, copy,
@@ -124,6 +125,45 @@ theorem c09_al_overflow (l : AL) (i : Nat) (v : List UInt8)
    fun hl => ⟨pushBack_overflow v (by rw [hl]; exact h), pushFront_overflow v (by rw [hl]; exact h)⟩,
    fun _ _ hz ho => initDynamic_overflow hz ho⟩
 
+
+/-! ### tie to the source text: definitions regenerated from `source/array_list.c` on every run
+
+`AwsVerif.Gen.ArrayListFns` is rewritten by `gen/arraylist_gen.py` from /repo's current
+`array_list.c` (clang AST → Lean, checked arithmetic resolved to the generated `Gen.Math.MathInl`).
+The theorems below say the hand-written model computes exactly those functions, so an edit of the
+C expressions changes the generated definitions and one of these named theorems stops checking. -/
+
+/-- **c09_gen_calc_necessary_size.**  The model's `calc_necessary_size` is the generated translation of
+`aws_array_list_calc_necessary_size` (through `aws_add_size_checked` / `aws_mul_size_checked` as
+generated from math.inl): same value on success, OVERFLOW_DETECTED (5) otherwise. -/
+theorem c09_gen_calc_necessary_size (isz i : Nat) :
+    Gen.ArrayListFns.calc_necessary_size isz i = resOfCalc (calcNecessarySize isz i) := gen_calc isz i
+
+/-- **c09_gen_growth.**  The growth rule of the model (`growthNewSize`, the guard and the overflow test
+of `ensure_capacity`) is the generated translation of the expressions in
+`aws_array_list_ensure_capacity`, and `ensure_capacity` as a whole is the composition of the
+generated functions. -/
+theorem c09_gen_growth (cs nec : Nat) (l : AL) (index : Nat) :
+    Gen.ArrayListFns.growth_new_size cs nec = growthNewSize cs nec ∧
+    Gen.ArrayListFns.needs_growth cs nec = decide (cs < nec) ∧
+    Gen.ArrayListFns.growth_overflowed cs nec = decide (nec < cs) ∧
+    ensureCapacity l index =
+      match Gen.ArrayListFns.calc_necessary_size l.itemSize index with
+      | .err _ => .error .overflow
+      | .ok nec =>
+        if Gen.ArrayListFns.needs_growth l.data.length nec then
+          if !l.dyn then .error .invalidIndex
+          else if Gen.ArrayListFns.growth_overflowed l.data.length (Gen.ArrayListFns.growth_new_size l.data.length nec)
+          then .error .exceedsMax
+          else .ok { l with data := l.data ++ List.replicate (Gen.ArrayListFns.growth_new_size l.data.length nec - l.data.length) none }
+        else .ok l :=
+  ⟨(gen_growth cs nec).1, (gen_growth cs nec).2.1, (gen_growth cs nec).2.2, ensureCapacity_gen l index⟩
+
+/-- **c09_gen_swap_slices.**  `SLICE`, the slice count and the remainder used by the model's `memSwap`
+are the generated translations of the expressions in `aws_array_list_mem_swap`. -/
+theorem c09_gen_swap_slices (n : Nat) :
+    Gen.ArrayListFns.slice = SLICE ∧ Gen.ArrayListFns.slice_count n = n / SLICE ∧
+    Gen.ArrayListFns.slice_remainder n = n &&& (SLICE - 1) := gen_slices n
 
 /-! ### the hypotheses are satisfiable: a concrete run (two lists, one static with 3 items) -/
 
